@@ -337,6 +337,7 @@ end Gen
 /-- abstract graph families; items are vertices or edges identified by an index -/
 inductive Fam where
   | ring | star | iso | huge
+  | mixed   -- a star whose first leaf carries the text "abc" in the numeric field x
   deriving DecidableEq, Repr
 
 structure Item where
@@ -350,14 +351,14 @@ def edg (i : Nat) : Item := ⟨true, i⟩
 def allV (fam : Fam) (n : Nat) : List Item :=
   match fam with
   | .ring => (List.range n).map vtx
-  | .star => (List.range (n + 1)).map vtx
+  | .star | .mixed => (List.range (n + 1)).map vtx
   | .iso => (List.range n).map vtx
   | .huge => (List.range n).map vtx
 
 def allE (fam : Fam) (n : Nat) : List Item :=
   match fam with
   | .ring => (List.range n).map edg
-  | .star => (List.range n).map (fun i => edg (i + 1))
+  | .star | .mixed => (List.range n).map (fun i => edg (i + 1))
   | _ => []
 
 /-- ring: e_i : i → (i+1) mod n.  star: e_i : 0 → i (1 ≤ i ≤ n). -/
@@ -365,14 +366,14 @@ def outEdges (fam : Fam) (n : Nat) (x : Item) : List Item :=
   if x.isEdge then [] else
   match fam with
   | .ring => if x.i < n then [edg x.i] else []
-  | .star => if x.i == 0 then (List.range n).map (fun i => edg (i + 1)) else []
+  | .star | .mixed => if x.i == 0 then (List.range n).map (fun i => edg (i + 1)) else []
   | _ => []
 
 def inEdges (fam : Fam) (n : Nat) (x : Item) : List Item :=
   if x.isEdge then [] else
   match fam with
   | .ring => if x.i < n then [edg ((x.i + n - 1) % n)] else []
-  | .star => if x.i == 0 then [] else [edg x.i]
+  | .star | .mixed => if x.i == 0 then [] else [edg x.i]
   | _ => []
 
 def edgeTo (fam : Fam) (n : Nat) (e : Item) : Item :=
@@ -388,6 +389,7 @@ def edgeFrom (fam : Fam) (_n : Nat) (e : Item) : Item :=
 inductive StepK where
   | V | E | out | in_ | both | outE | inE | bothE | as_ | select | limit (k : Nat) | skip (k : Nat)
   | range (a b : Nat) | count | distinct | aggcount | aggterm | agghist (i : Nat) | agg2
+  | aggpct   -- percentile aggregation on x, one percent: one result row whatever the values are
   deriving Repr, DecidableEq
 
 def stepOut (fam : Fam) (n : Nat) (x : Item) : List Item :=
@@ -436,6 +438,7 @@ def applyStep (fam : Fam) (n : Nat) (xs : List Item) : StepK → List Item
     else if histStalls fam i then [vtx 0]     -- one bucket, then the guard leaves the loop
     else (List.range (histBuckets i (minI fam xs) (maxI fam xs))).map vtx
   | .agg2 => vtx 0 :: (List.range (termCount xs)).map vtx
+  | .aggpct => [vtx 0]
 
 inductive Outcome where
   | done (rows : Nat) | timeout | err | skip
@@ -520,7 +523,7 @@ def pathSlack (steps : List StepK) : Option Nat :=
           match Gen.lookupOf proc with
           | some (q, be) => some (q + 1 + (Gen.backendOf be).foldl (· + ·) 0 + (Gen.backendOf be).length)
           | none => none
-        | .both | .bothE | .count | .aggcount | .aggterm | .agghist _ | .agg2 => none
+        | .both | .bothE | .count | .aggcount | .aggterm | .agghist _ | .agg2 | .aggpct => none
         | _ => some 1
       match stage with
       | none => none
